@@ -474,6 +474,19 @@ def _front_door(rep, g4, core, ac, FA):
         same = _eqb(g4, c_lo, g_lo) and _eqb(g4, c_hi, g_hi)
         rep.add('VALIDATION', 'front-door:' + role, where(ac), 'accepted %s: core [%s, %s], Geant4 action [%s, %s]'
                 % (role, fmtb(c_lo), fmtb(c_hi), fmtb(g_lo), fmtb(g_hi)), same)
+    # a lower-bound test can only refuse negative input when the tested field is signed
+    rec = g4.records.get(PGA + '::ConfigurationInterface')
+    if rec is None:
+        raise AnalysisBroken('record ConfigurationInterface not found')
+    for fld in ('seed', 'dbd_mode', 'dbd_level'):
+        f = [x for x in rec['fields'] if x['name'] == fld]
+        if not f:
+            raise AnalysisBroken('ConfigurationInterface::%s not found' % fld)
+        ty = f[0]['ty']
+        unsigned = any(t in ty for t in ('unsigned', 'size_t', 'uint', 'G4uint'))
+        rep.add('VALIDATION', 'signed:' + fld, where({'file': rec['file'], 'l': f[0]['l']}), 'ConfigurationInterface::%s is a signed integer (%s): its '
+                'lower-bound refusal sees negative requests, as the core front door does (std::stoi then `< 0`)' % (fld, ty), not unsigned,
+                None if not unsigned else 'a negative value wraps to a large positive one before the test: negative requests are accepted')
     # category labels
     def direct_cat(t):
         ss = t['s'] if t['k'] == 'Compound' else [t]
